@@ -33,14 +33,14 @@ Proof.
   destruct (Nat.leb_spec (N.to_nat a) b), (N.leb_spec a (N.of_nat b)); try reflexivity; lia.
 Qed.
 
-Lemma slice_prefix p ov : (ov <= length p)%nat -> rs_slice p 0 ov = Val (firstn ov p).
+Lemma slice_prefix {A} (p : list A) ov : (ov <= length p)%nat -> rs_slice p 0 ov = Val (firstn ov p).
 Proof.
   intros H. unfold rs_slice. cbn [Nat.leb andb skipn].
   replace (Nat.leb ov (length p)) with true by (symmetry; apply Nat.leb_le; exact H).
   rewrite Nat.sub_0_r. reflexivity.
 Qed.
 
-Lemma slice_body p ov l : (ov <= length p)%nat -> (l <= length p - ov)%nat ->
+Lemma slice_body {A} (p : list A) ov l : (ov <= length p)%nat -> (l <= length p - ov)%nat ->
   rs_slice p ov (ov + l) = Val (firstn l (skipn ov p)).
 Proof.
   intros H1 H2. unfold rs_slice.
@@ -102,7 +102,8 @@ Ltac r_consts :=
   change sign_crypt__BlsSignCrypt__seal__SALT with SALT_SIGNCRYPT;
   change sig_proof__SALT with SALT_POK;
   change time_crypt__SALT with SALT_TIMELOCK;
-  change elgamal__SALT with SALT_ELGAMAL.
+  change elgamal__SALT with SALT_ELGAMAL;
+  change helpers__KEYGEN_SALT with KEYGEN_SALT.
 
 Section Loops.
   Context {K : FieldOps} (O : Oracles K) (ent : nat -> bytes).
